@@ -21,10 +21,12 @@
    _get_href_decoder -> _try_resource_autoload), each with the script of the
    nested load, and the final outcome of the load itself.  One request:
      - the decoders are asked first; the resource set is one of them
-       (ResourceSet.can_resolve: `uri_str in self.resources` or the normalised
-       path in self.resources): then nothing is loaded and nothing registered;
+       (ResourceSet.can_resolve: the path normalised against the referring
+       resource in self.resources, else the raw string in self.resources): then
+       nothing is loaded and nothing registered;
      - otherwise _try_resource_autoload: rset.get_resource(external_uri) and, when
-       external_uri.plain != original_uri, the alias entry
+       external_uri.plain != original_uri and the original URI still cannot be
+       found through can_resolve (mapped / converted URIs only), the alias entry
        rset.resources[original_uri] = resource;  any exception is re-raised as
        TypeError and ends the requesting load.
    A script is a finite tree, so get_resource is structurally recursive: cyclic
@@ -74,10 +76,25 @@ Definition remove_resource (r : Z) (s : rset) : rset :=
 Definition alias (orig r : Z) (s : rset) : rset :=
   {| resources := rset_key orig r (resources s); next_rid := next_rid s |}.
 
+(* ResourceSet.can_resolve(path, from_resource): the path taken relatively to the referring
+   resource is looked up first, the raw string only as a fallback *)
+Definition can_resolve (orig onorm : Z) (s : rset) : bool :=
+  rmem onorm (resources s) || rmem orig (resources s).
+
+(* end of _try_resource_autoload: the alias  rset.resources[original_uri] = resource  is kept
+   only when the loaded URI differs from the original one and the original one still cannot be
+   found through can_resolve (a mapped or converted URI) *)
+Definition keep_alias (orig onorm norm r : Z) (s : rset) : rset :=
+  if (orig =? norm) || can_resolve orig onorm s then s else alias orig r s.
+
 (* what a load does, as far as the registry can see *)
 Inductive script : Type :=
-| Script (requests : list (Z * Z * script)) (ok : bool).
-(* a request = (original uri string, normalised uri, script of the nested load) *)
+| Script (requests : list (Z * Z * Z * script)) (ok : bool).
+(* a request = (original uri string as written in the document,
+                the original uri normalised against the requesting resource,
+                the normalised uri that is actually loaded (after URI mapping / conversion),
+                script of the nested load);
+   without URI mapper or converter the last two are equal *)
 
 Inductive lres : Type := LOk (r : Z) | LErr.
 
@@ -88,14 +105,14 @@ Fixpoint get_resource (uri : Z) (sc : script) (s : rset) {struct sc} : lres * rs
     let (r, s1) := create_resource uri s in
     match sc with
     | Script reqs ok =>
-      let fix run (l : list (Z * Z * script)) (s : rset) {struct l} : bool * rset :=
+      let fix run (l : list (Z * Z * Z * script)) (s : rset) {struct l} : bool * rset :=
         match l with
         | [] => (true, s)
-        | (orig, norm, sc') :: rest =>
-          if rmem orig (resources s) || rmem norm (resources s) then run rest s
+        | (orig, onorm, norm, sc') :: rest =>
+          if can_resolve orig onorm s || rmem norm (resources s) then run rest s
           else
             match get_resource norm sc' s with
-            | (LOk r', s') => run rest (if orig =? norm then s' else alias orig r' s')
+            | (LOk r', s') => run rest (keep_alias orig onorm norm r' s')
             | (LErr, s') => (false, s')
             end
         end in
@@ -107,14 +124,14 @@ Fixpoint get_resource (uri : Z) (sc : script) (s : rset) {struct sc} : lres * rs
   end.
 
 (* the same loop as a top-level function (the proofs relate the two) *)
-Fixpoint run_requests (l : list (Z * Z * script)) (s : rset) : bool * rset :=
+Fixpoint run_requests (l : list (Z * Z * Z * script)) (s : rset) : bool * rset :=
   match l with
   | [] => (true, s)
-  | (orig, norm, sc') :: rest =>
-    if rmem orig (resources s) || rmem norm (resources s) then run_requests rest s
+  | (orig, onorm, norm, sc') :: rest =>
+    if can_resolve orig onorm s || rmem norm (resources s) then run_requests rest s
     else
       match get_resource norm sc' s with
-      | (LOk r', s') => run_requests rest (if orig =? norm then s' else alias orig r' s')
+      | (LOk r', s') => run_requests rest (keep_alias orig onorm norm r' s')
       | (LErr, s') => (false, s')
       end
   end.
@@ -168,7 +185,7 @@ Fixpoint all_accepted (d : doc) : bool :=
    ops:  1 uri                       create_resource
          2 uri <script>              get_resource
          3 rid                       remove_resource
-   <script> ::= nreq (orig norm <script>)^nreq ok
+   <script> ::= nreq (orig onorm norm <script>)^nreq ok
    answer per op: outcome (0 ok / 1 raised) ; rid (or -1) ; n ; (key value)^n *)
 
 Fixpoint parse_script (fuel : nat) (t : list Z) : option (script * list Z) :=
@@ -177,16 +194,16 @@ Fixpoint parse_script (fuel : nat) (t : list Z) : option (script * list Z) :=
   | S f =>
     match t with
     | nreq :: rest =>
-      let fix reqs (n : nat) (t : list Z) : option (list (Z * Z * script) * list Z) :=
+      let fix reqs (n : nat) (t : list Z) : option (list (Z * Z * Z * script) * list Z) :=
         match n with
         | O => Some ([], t)
         | S n' =>
           match t with
-          | orig :: norm :: t1 =>
+          | orig :: onorm :: norm :: t1 =>
             match parse_script f t1 with
             | Some (sc, t2) =>
               match reqs n' t2 with
-              | Some (l, t3) => Some ((orig, norm, sc) :: l, t3)
+              | Some (l, t3) => Some ((orig, onorm, norm, sc) :: l, t3)
               | None => None
               end
             | None => None
